@@ -201,31 +201,31 @@ void binary_mixed(char const* desc)
 }
 
 // unary: reduce, canonical, hash grouping, conversion to floating point
-template<class T>
+template<class T, class TD = T>
 void unary(char const* desc, int range /*0 => all 8-bit components*/)
 {
     if (!kernel_selected(desc)) return;
-    using F = cnl::fraction<T>;
+    using F = cnl::fraction<T, TD>;
     Tally t(desc);
     Rng rng(mix(env_seed(), hash_str(desc)));
-    std::vector<T> ns, ds;
+    std::vector<T> ns;
+    std::vector<TD> ds;
     if (range == 0) {
         if constexpr (width_of<T> <= 8) ns = all_values<T>();
-        ds = ns;
+        if constexpr (width_of<TD> <= 8) ds = all_values<TD>();
         t.exhaustive = true;
     } else {
-        for (int i = -range; i <= range; ++i) if (i >= 0 || is_sgn<T>) ns.push_back((T)i);
-        ds = ns;
+        for (int i = -range; i <= range; ++i) { if (i >= 0 || is_sgn<T>) ns.push_back((T)i); if (i >= 0 || is_sgn<TD>) ds.push_back((TD)i); }
         for (T x : lattice<T>()) if ((x & 3) == 1 || X::of(x).mag128() > 1000) { ns.push_back(x); }
-        for (int k = 2; k < 40; k += 3) for (int i = -6; i <= 6; ++i) if (i) { ds.push_back((T)(i * k)); ns.push_back((T)(i * k)); }
+        for (int k = 2; k < 40; k += 3) for (int i = -6; i <= 6; ++i) if (i) { if (i > 0 || is_sgn<TD>) ds.push_back((TD)(i * k)); if (i > 0 || is_sgn<T>) ns.push_back((T)(i * k)); }
     }
     std::map<std::pair<std::string, std::string>, size_t> hash_of_class;  // exact reduced value -> hash
     for (T n : ns)
-        for (T d : ds) {
+        for (TD d : ds) {
             if (t.closed) break;
             if (d == 0) { ++t.ood; continue; }
             // domain of reduce/canonical/hash: components != most negative (precondition of std::gcd)
-            if ((is_sgn<T> && (n == tmin<T>() || d == tmin<T>()))) { ++t.ood; continue; }
+            if ((is_sgn<T> && n == tmin<T>()) || (is_sgn<TD> && d == tmin<TD>())) { ++t.ood; continue; }
             X xn = X::of(n), xd = X::of(d);
             X gg = xgcd(xn, xd);
             X rn = tdiv(xn, gg), rd = tdiv(xd, gg);  // lowest terms, signs as given
@@ -247,7 +247,17 @@ void unary(char const* desc, int range /*0 => all 8-bit components*/)
                 // reduce: same value, lowest terms (either sign convention of the pair is accepted)
                 if (gd.zero() || qcmp(Q{gn, gd}, Q{xn, xd}) != 0) bad = "reduce_changes_value";
                 else if (!(xgcd(gn, gd) == X::from_u(1))) bad = "reduce_not_lowest_terms";
-                else if (kn != cn || kd != cd) bad = "canonical_wrong";
+                if (!bad.empty() && bad[0] == 'r') {
+                    // defect model (KF-C16-01): components of different signedness whose common type is unsigned: the gcd has that type and
+                    // the negative component is converted to it (modulo 2^w) before the division
+                    using CT = std::common_type_t<T, TD>;
+                    if constexpr (is_sgn<T> != is_sgn<TD> && !is_sgn<CT>) {
+                        X mod = xpow2((unsigned)width_of<CT>);
+                        auto wrap = [&](X v) { X r = trem(v, mod); if (r.neg) r = r + mod; return r; };
+                        if (!gg.zero() && gn == tdiv(wrap(xn), gg) && gd == tdiv(wrap(xd), gg)) bad = "reduce_mixed_signedness_divides_in_the_unsigned_common_type";
+                    }
+                }
+                else if ((kn != cn || kd != cd) && fits<T>(cn) && fits<TD>(cd)) bad = "canonical_wrong";   // (judged when the canonical pair is representable in the component types)
                 else if (fl != (long double)((double)n / (double)d)) bad = "to_floating_differs_from_n_over_d";
                 else {
                     auto key = std::make_pair(cn.str(), cd.str());
